@@ -6,7 +6,9 @@ package main
 // it does not explore schedules.
 
 import (
+	"fmt"
 	"go/types"
+	"os"
 
 	"golang.org/x/tools/go/ssa"
 )
@@ -33,6 +35,8 @@ type scheduler struct {
 	abort    interface{} // panic value that ends the path: propagated to the main goroutine
 	mainWake chan struct{}
 }
+
+var schedTrace = os.Getenv("SYMGO_SCHED") != ""
 
 type wgKey struct {
 	o   *Obj
@@ -68,14 +72,20 @@ func (vm *VM) block(why string) {
 	}
 	me := s.cur
 	nxt := vm.nextGor(me)
+	if schedTrace {
+		fmt.Fprintf(os.Stderr, "SCHED g%d blocks (%s) idle=%d live=%d -> g%d\n", me.id, why, s.idle, live, nxt.id)
+	}
 	if nxt == me {
 		panic(pathEnd{"deadlock", "goroutine blocked forever (" + why + ") at " + vm.where()})
 	}
 	s.cur = nxt
-	saveFn, saveDepth := vm.curFn, vm.callDepth
+	saveFn, saveDepth, saveStack, saveRec := vm.curFn, vm.callDepth, vm.stack, vm.recoverStk
 	nxt.wake <- struct{}{}
 	<-me.wake
-	vm.curFn, vm.callDepth = saveFn, saveDepth
+	vm.curFn, vm.callDepth, vm.stack, vm.recoverStk = saveFn, saveDepth, saveStack, saveRec
+	if schedTrace {
+		fmt.Fprintf(os.Stderr, "SCHED g%d resumes (abort=%v)\n", me.id, s.abort)
+	}
 	if s.abort != nil && me.id != 0 {
 		panic(gorExit{})
 	}
@@ -117,6 +127,9 @@ func (vm *VM) goStmt(fr *frame, x *ssa.Go) {
 		defer func() {
 			r := recover()
 			g.done = true
+			if schedTrace {
+				fmt.Fprintf(os.Stderr, "SCHED g%d exits r=%v abort=%v\n", g.id, r, s.abort)
+			}
 			if r != nil {
 				if _, ok := r.(gorExit); !ok && s.abort == nil {
 					if gp, ok := r.(goPanic); ok {
@@ -143,6 +156,11 @@ func (vm *VM) goStmt(fr *frame, x *ssa.Go) {
 			panic(gorExit{})
 		}
 		vm.callDepth = 0
+		vm.stack = nil
+		vm.recoverStk = nil
+		if schedTrace {
+			fmt.Fprintf(os.Stderr, "SCHED g%d starts\n", g.id)
+		}
 		vm.invoke(nil, &cc, f, args)
 	}()
 }
